@@ -26,6 +26,10 @@ analysis procedures.
 
 .. moduleauthor:: Tom Dimiduk <tdimiduk@physics.harvard.edu>
 """
+import functools
+import sys
+import types
+
 import numpy as np
 import yaml
 
@@ -37,6 +41,23 @@ except AttributeError:
 YAMLLOADERS = (FullLoader, yaml.SafeLoader)
 
 # Metaclass black magic to eliminate need for adding yaml_tag lines to classes
+def found_by_name(item):
+    """
+    Plain functions are saved by name. True unless item is a function that a
+    loader (possibly in another process) could not find again under its name:
+    a lambda, a nested or __main__ function, a functools.partial.
+    """
+    if not isinstance(item, (types.FunctionType, functools.partial)):
+        return True
+    module = sys.modules.get(getattr(item, '__module__', None))
+    if module is None or module.__name__ == '__main__':
+        return False
+    found = module
+    for part in getattr(item, '__qualname__', '').split('.'):
+        found = getattr(found, part, None)
+    return found is item
+
+
 class SerializableMetaclass(yaml.YAMLObjectMetaclass):
     def __init__(cls, name, bases, kwds):
         super().__init__(name, bases, kwds)
@@ -84,6 +105,9 @@ class HoloPyObject(Serializable):
                              defaults.get(var) is not None)
             if getattr(self, var, None) is not None or explicit_none:
                 item = getattr(self, var)
+                if not found_by_name(item):
+                    # would be written, and then refused by every loader
+                    continue
                 if isinstance(item, np.ndarray) and item.ndim == 1:
                     item = list(item)
                 yield var, item
